@@ -8,7 +8,7 @@ FILES = ["cmd/zoekt-merge-index/main.go", "index/merge.go"]
 SPEC = dict(
     level="proof",
     harness=dict(pkg_dir="cmd/zoekt-merge-index", run="TestVerifC35$", files=["cmd/zoekt-merge-index/zz_verif_c35_test.go"],
-                 n_quick=260, n_thorough=6000),
+                 n_quick=260, n_thorough=3000),
     runner=dict(imports=["From ZV Require Import Lib.Base Model.MergeDriver."], case_type="c35case",
                 mismatch_fn="c35_mismatches", shard=150),
     rule="generated directories of REAL shards (1-3 simple inputs / a 1-3 repo compound, optional bystander shard, compound "
